@@ -328,10 +328,22 @@ def run(P, tier="quick"):
     # --- keys written are keys read
     fsave = P.need_func("vnacal_save", SAVE)
     written = set()
-    for c in fsave.calls("add_mapping_entry"):
-        a = c.args()[3].strip()
-        if a.k == "StringLiteral":
-            written.add(a.val)
+    # helpers of vnacal_save.c that forward one of their parameters as the key of add_mapping_entry
+    key_arg = {"add_mapping_entry": 3}
+    for g in P.by_file.get(SAVE, []):
+        if g.body is None or g.name == "add_mapping_entry":
+            continue
+        for c in g.calls("add_mapping_entry"):
+            a = c.args()[3].strip() if len(c.args()) > 3 else None
+            if a is not None and a.k == "DeclRefExpr" and a.refkind == "param":
+                k_ = g.param_index(a.refname)
+                if k_ is not None:
+                    key_arg[g.name] = k_
+    for c in fsave.calls():
+        if c.callee in key_arg and len(c.args()) > key_arg[c.callee]:
+            a = c.args()[key_arg[c.callee]].strip()
+            if a.k == "StringLiteral":
+                written.add(a.val)
     read = set()
     for f in P.by_file.get(LOAD, []):
         for c in f.calls("strcmp"):
